@@ -11,7 +11,7 @@ INF = float('inf')
 def build(case, **over):
     c = dict(case); c.update(over)
     p = H.make_problem(c['n'], c['lo'], c['hi'], c['objective'], fail_at=c.get('fail_at'), exc=c.get('exc', 'RuntimeError'),
-                       fail_region=c.get('fail_region'), returns_new_holder=c.get('new_holder', False))
+                       fail_region=c.get('fail_region'), returns_new_holder=c.get('new_holder', False), discrete=c.get('discrete', 0))
     s = H.make_solver(p, r=c['r'], eps=c['eps'], iters=c['iters'], density=c.get('density'), refine=c.get('refine', False), start=c.get('start'))
     return p, s
 
@@ -27,7 +27,8 @@ def c03(case):
     """Solve on a fresh solver, single-stepped twin to know the selected interval lengths."""
     fails = []
     p, s = build(case)
-    sol, out = H.run_script(s, [('solve',)])
+    pre = [('iter', int(k)) for k in (case.get('pre') or [])]      # requests of several iterations before Solve (their total stays within the budget)
+    sol, out = H.run_script(s, pre + [('solve',)])
     n = case['n']
     nglobal = len(p.log) - (sol.numberOfLocalTrials + 1 if case.get('refine') else 0)   # refinement: nfev calls + 1 final evaluation
     if sol.numberOfGlobalTrials != nglobal:
@@ -59,6 +60,9 @@ def c03(case):
                 if sel[-1] < case['eps']:
                     stop_at = k; break
     expect = stop_at if stop_at is not None else case['iters']
+    total_pre = sum(k for _, k in pre)
+    if total_pre > expect:      # the batches themselves (which do not test the stop rule) went past the stop point: Solve then adds nothing
+        return fails + ([] if len(p.log) == total_pre else ['after batches totalling %d (past the stop point %d) Solve made %d more trials' % (total_pre, expect, len(p.log) - total_pre)])
     if not fails and len(p.log) != expect:
         fails.append('Solve made %d trials, the stop rule (first subdivided interval below eps=%g, else budget %d) gives %d'
                      % (len(p.log), case['eps'], case['iters'], expect))
@@ -96,6 +100,11 @@ def c02_long(case):
             it = 0
             while it < case['iters'] - 1 and not fails:
                 nlog = len(p.log)
+                if case.get('resume_every') and it and it % case['resume_every'] < batch:      # Solve() on an exhausted budget, then the budget is raised again
+                    lim = s.method.parameters.itersLimit
+                    s.method.parameters.itersLimit = s.method.iterationsCount
+                    s.Solve()
+                    s.method.parameters.itersLimit = lim
                 sel.clear()
                 try:
                     s.DoGlobalIteration(batch)
@@ -114,6 +123,14 @@ def c02_long(case):
                         Rl = 2 * D - 4 * (zr - Z) / (r * M)
                         Rr = 2 * D - 4 * (zl - Z) / (r * M)
                     R = np.where(el & er, Rin, np.where(er, Rl, Rr))
+                    with np.errstate(all='ignore'):
+                        slopes = np.where(el & er, np.abs(zr - zl) / D, 0.0)
+                    stats['hist_M'] = max(stats.get('hist_M', 1.0), float(slopes.max()))
+                    if M < stats['hist_M'] * (1 - 1e-9):
+                        fails.append('iteration %d: M=%r is below the largest slope seen so far between neighbouring trials (%r): the estimate dropped' % (it + 1, M, stats['hist_M'])); break
+                    if M < 1.0 or float(slopes.max()) > M * (1 + 1e-9):
+                        jj = int(slopes.argmax())
+                        fails.append('iteration %d: M=%r does not dominate the slope %r of the neighbouring trials at (%.12g, %.12g)' % (it + 1, M, float(slopes.max()), xs[jj], xs[jj + 1])); break
                     k = int(np.searchsorted(xs, xr)) - 1
                     if not (0 <= k < len(R)) or xs[k] != xl or xs[k + 1] != xr:
                         fails.append('iteration %d: the subdivided interval (%r, %r) is not an interval of the partition formed by all earlier trials' % (it + 1, xl, xr)); break
@@ -210,8 +227,9 @@ def record_check(case, p, s, evaluated_log=None, where=''):
     if items[0].GetIndex() == 0 or items[-1].GetIndex() == 0:
         fails.append(where + 'an end point is marked evaluated')
     ev = Evolvent(case['lo'], case['hi'], n, case['density']) if case.get('density') else Evolvent(case['lo'], case['hi'], n)
-    if case.get('density') is None:
-        ev = s.evolvent.__class__(case['lo'], case['hi'], n, s.evolvent.evolventDensity)
+    if case.get('density') is None:      # the density the solver was CONFIGURED with (the documented default)
+        from iOpt.solver_parametrs import SolverParameters
+        ev = s.evolvent.__class__(case['lo'], case['hi'], n, SolverParameters().evolventDensity)
     bypoint = {}
     for y, v in log:
         bypoint.setdefault(tuple(y), []).append(v)
@@ -268,6 +286,16 @@ def c02_steps(case, check04=True, check06=True):
         fails.append('first trial %r is not the image of 0.5' % (p.log[0][0],))
     seen_pts = set()
     for it in range(case['iters'] - 1):
+        if it == case.get('reassign_parameters_at'):      # a new SolverParameters object (other density) assigned to the solver: the record must stay faithful
+            from iOpt.solver_parametrs import SolverParameters
+            old = s.parameters
+            s.parameters = SolverParameters(eps=old.eps, r=old.r, itersLimit=old.itersLimit, evolventDensity=(old.evolventDensity - 3 if old.evolventDensity > 5 else old.evolventDensity + 2))
+        if it in (case.get('resume_at') or ()):      # Solve() on a run whose budget is exhausted, then the budget is raised and the search goes on
+            lim = s.method.parameters.itersLimit
+            s.method.parameters.itersLimit = s.method.iterationsCount
+            with H.quiet():
+                s.Solve()
+            s.method.parameters.itersLimit = lim
         if it == case.get('refine_at'):      # a local refinement in the middle of the search must not disturb the decision rule
             with H.quiet():
                 s.DoLocalRefinement(case.get('refine_iters', 15))
@@ -279,6 +307,12 @@ def c02_steps(case, check04=True, check06=True):
         if fails:
             break
         M, Z = s.method.M[0], s.method.Z[0]
+        # the largest slope EVER seen between trials that were neighbours (a pair that was later subdivided still counts)
+        for a, b in zip(rec, rec[1:]):
+            if a['index'] == 0 and b['index'] == 0 and b['delta'] > 0:
+                stats['hist_M'] = max(stats.get('hist_M', 1.0), abs(b['z'] - a['z']) / b['delta'])
+        if M < stats.get('hist_M', 1.0) * (1 - 1e-12):
+            fails.append('after %d iterations M=%r is below the largest slope seen so far between neighbouring trials (%r): the estimate dropped' % (it + 1, M, stats['hist_M'])); break
         # M must be the largest neighbour slope seen so far floored at 1: at least all current slopes
         evs = [q for q in rec if q['index'] == 0]
         zmin = min(q['z'] for q in evs)
@@ -432,6 +466,8 @@ def random_prehistory(rng, n, lo, hi):
     ops = []
     if k < 0.55:
         lo2 = [a - rng.choice([0.5, 1, 3]) for a in lo]; hi2 = [b + rng.choice([0.25, 1, 2]) for b in hi]
+        if rng.random() < 0.4:      # first box given as python ints (as the project's own tests do): the stored arrays must not keep that type
+            lo2 = [int(a) - 2 for a in lo]; hi2 = [int(b) + 2 for b in hi]
         ops.append(('other_bounds', lo2, hi2))
     elif k < 0.62:
         ops.append(('default_bounds',))
@@ -589,10 +625,13 @@ def c17_history(case):
 
 def c20(case):
     """every trial coordinate on the cell-centre grid of the configured density"""
+    if case.get('density_type') == 'numpy':      # the density arrives as a numpy integer (an element of np.arange, a settings array)
+        import numpy as np
+        case = dict(case, density=np.arange(0, 64)[int(case['density'])])
     p, s = build(case)
     with H.quiet():
         s.DoGlobalIteration(case['iters'])
-    m = case['density']
+    m = int(case['density'])
     fails = []
     for y, v in p.log:
         for c, l, h in zip(y, case['lo'], case['hi']):
